@@ -240,7 +240,7 @@ def run_impl(m):
     x = xv_of(m) if 'x' in m else None
     if op in ('acovs', 'ccovs'):
         def f():
-            full = cov_call(m, x, None if op == 'acovs' else xv_of(m, 'y'))
+            full = cov_call(m, x, None if op == 'acovs' else (x if m.get('same_object') else xv_of(m, 'y')))
             return 'ok ' + clist([full[i, j, k] for (i, j) in m['pairs'] for k in range(m['nl'])])
         return call(f)
     if op in ('acov', 'ccovi'):
@@ -248,6 +248,8 @@ def run_impl(m):
             full = cov_call(m, x, xv_of(m, 'y') if 'y' in m else None)
             return 'ok ' + rflat(np.asarray(full).transpose(2, 0, 1))
         return call(lambda: (f(), f())[1])
+    if op == 'mar' and 'prog' in m:
+        return call(lambda: (lambda a, s: 'ok %s %s' % (rflat(a), rflat(s)))(*run_prog(m, x)[0]))
     if op == 'mar':
         return call(lambda: (ar.MAR_est_LWR(x, m['order']), (lambda a, s: 'ok %s %s' % (rflat(a), rflat(s)))(*ar.MAR_est_LWR(x, m['order'])))[1])
     if op == 'fitc':
@@ -274,6 +276,65 @@ def run_impl(m):
             return 'ok ' + rflat(mar.T)
         return call(f)
     raise ValueError(op)
+
+
+def run_prog(m, x):
+    """round 2 (L8): ONE covariance stack `R = autocov_vector(x, nlags=order+1)` whose slices are handed to other
+    estimators BEFORE the block recursion runs on it — `R[c, c]` (a strided view: the autocovariance sequence of channel c)
+    to the scalar estimators, `R[:, :, :k]` to `lwr_recursion` for a lower order — then `lwr_recursion(R)`; what
+    `MAR_est_LWR(x, order)` does, with other consumers of the same array in between.  Returns ((a, sigma), R, scalar results)"""
+    ar, ut, _ = mods()
+    R = ut.autocov_vector(x, nlags=m['order'] + 1)
+    scal = []
+    for st in m['prog']:
+        kind, c, p = st.split(':')
+        c, p = int(c), int(p)
+        if kind == 'LD':
+            scal.append((st, ar.AR_est_LD(None, p, rxx=R[c, c])))
+        elif kind == 'YW':
+            scal.append((st, ar.AR_est_YW(None, p, rxx=R[c, c])))
+        elif kind == 'LDcopy':
+            scal.append((st, ar.AR_est_LD(None, p, rxx=np.array(R[c, c]))))
+        elif kind == 'LDx':
+            scal.append((st, ar.AR_est_LD(x[c], p)))
+        elif kind == 'LWR':
+            scal.append((st, ar.lwr_recursion(R[:, :, :p + 1].transpose(2, 0, 1))))
+        elif kind == 'LWR1':        # the one-channel recursion on the diagonal sequence (a (p+1,1,1) view of R)
+            scal.append((st, ar.lwr_recursion(R[c:c + 1, c:c + 1, :p + 1].transpose(2, 0, 1))))
+        else:
+            raise ValueError(st)
+    return ar.lwr_recursion(R.transpose(2, 0, 1)), R, scal
+
+
+def prog_judge(m, fail):
+    """after the program: the stack still IS the lagged covariance of the data (bit for bit what a fresh call returns);
+    every scalar result equals the one obtained from a private copy of the slice; one channel: LWR = -LD"""
+    ar, ut, _ = mods()
+    import ar_seq
+    x = xv_of(m)
+    try:
+        (a, sig), R, scal = run_prog(m, x)
+    except Exception as e:  # noqa
+        return fail('alias/raises', 'covariance stack shared between estimators: %s' % type(e).__name__)
+    R0 = ut.autocov_vector(xv_of(m), nlags=m['order'] + 1)
+    if not ar_seq.same(R0, R):
+        k = np.unravel_index(np.argmax(np.abs(R0 - R)), R.shape)
+        return fail('alias/covariance-stack-changed', 'after %s the array returned by autocov_vector differs from the lagged covariance of the data '
+                    '(entry %r: %.6g, was %.6g)' % ('; '.join(m['prog']), tuple(int(t) for t in k), R[k], R0[k]))
+    for st, res in scal:
+        kind, c, p = st.split(':')
+        c, p = int(c), int(p)
+        if kind in ('LD', 'YW', 'LDcopy'):
+            want = (ar.AR_est_LD if kind != 'YW' else ar.AR_est_YW)(None, p, rxx=np.array(R0[c, c]))
+            if not ar_seq.same([np.asarray(v) for v in want], [np.asarray(v) for v in res]):
+                return fail('alias/scalar-result-depends-on-sharing', '%s on the view R[%d,%d] differs from the call on a private copy' % (st, c, c))
+        if kind == 'LWR1':
+            ak, s2 = ar.AR_est_LD(None, p, rxx=np.array(R0[c, c]))
+            a1, s1 = res
+            sc = abs(R0[c, c, 0])
+            if np.abs(a1[:, 0, 0] + ak).max() > 1e-7 * max(1.0, np.abs(ak).max()) or abs(s1[0, 0] - s2) > 1e-7 * sc:
+                return fail('alias/one-channel-not-scalar-estimator', 'one-channel LWR on R[%d,%d] is not minus the Levinson-Durbin solution' % (c, c))
+    return None
 
 
 def cov_call(m, x, y):
@@ -352,6 +413,11 @@ def line_of(m):
         return 'C11 lwr %d %s' % (m['nc'], clist(parse_flist(m['r'])))
     if op == 'acov':
         return 'C11 acov %d %d %s' % (m['nc'], m['nl'], clist(parse_flist(m['x'])))
+    if op == 'mar' and 'prog' in m:
+        # the scalar consumers of the diagonal sequences (`c:p`) are the model's `SliceCall`s; the other steps of the program
+        # (private copies, the signal path, lower-order block recursions) do not touch the stack in the model
+        calls = ','.join('%s:%s' % tuple(st.split(':')[1:]) for st in m['prog'] if st.split(':')[0] in ('LD', 'YW', 'LWR1')) or '-'
+        return 'C11 marp %d %d %s %s' % (m['nc'], m['order'], calls, clist(parse_flist(m['x'])))
     if op == 'mar':
         return 'C11 mar %d %d %s' % (m['nc'], m['order'], clist(parse_flist(m['x'])))
     if op == 'ccovi':      # integer-typed recordings: the samples cross the protocol as integers, the model embeds them
@@ -372,7 +438,7 @@ def line_of(m):
         for st in m['steps']:
             ij = step_ij(m, st)
             toks += ['S:%d:%s:%s' % (st['nproc'], ','.join('%d,%d' % q for q in ij) or '-', st['data']), 'R']
-        return 'C11 gseq %s %d %d %s' % (m['crit'], m['order'], m['maxo'], ' '.join(toks))
+        return 'C11 %s %s %d %d %s' % ('gseqf' if m.get('fail') else 'gseq', m['crit'], m['order'], m['maxo'], ' '.join(toks))
 
 
 def cmp_groups(n_exact=0, rtol=1e-8, atol=1e-300):
@@ -455,7 +521,8 @@ def judge_value(m, impl, clause):
         x = xf_of(m)
         y = x if op == 'acovs' else xf_of(m, 'y')
         try:
-            got = cov_call(m, xv_of(m), None if op == 'acovs' else xv_of(m, 'y'))
+            xo = xv_of(m)
+            got = cov_call(m, xo, None if op == 'acovs' else (xo if m.get('same_object') else xv_of(m, 'y')))
         except Exception as e:  # noqa
             return fail('raises', 'valid input rejected: %s' % type(e).__name__)
         want = direct_crosscov(x, y, m['nl'])
@@ -546,6 +613,8 @@ def judge_value(m, impl, clause):
             f.key = 'mar/order-off-by-one'
             return f
         f = check_solution(direct_autocov(x, m['order'] + 1), a, sigma, fail, prec=tolf(m))
+        if not f and 'prog' in m:
+            f = prog_judge(m, fail)
         if not f and 'pow2' in m:       # x·2^k (exact): same coefficients, Σ·4^k
             a2, s2 = ar.MAR_est_LWR(ar_fam.variant(x * 2.0 ** m['pow2'], m.get('dt')), m['order'])
             if np.abs(a2 - a).max() > 1e-9 * max(1.0, np.abs(a).max()) or np.abs(s2 / 4.0 ** m['pow2'] - sigma).max() > 1e-9 * np.abs(sigma).max():
@@ -681,8 +750,73 @@ def sequence_judge(m, clause):
     return fail(syms[0]) if syms else None
 
 
+def failure_judge(m, clause):
+    """round 2 (L7): refused / failing calls of every entry point on the SAME argument objects (order >= N, singular R(0),
+    x1 is x2, max_order too small, nlags beyond the record), then the ordinary calls against fresh copies"""
+    import ar_fail, warnings
+    warnings.simplefilter('ignore')
+    ar, ut, gr = mods()
+    op = m['op']
+
+    def fail(sym):
+        return Failure('%s/%s' % (clause, sym), '%s: after a refused / failing call on the same argument objects: %s [op %s]' % (clause, sym, op),
+                       {'meta': m, 'clause': clause})
+    if op == 'lwr':
+        nc = m['nc']
+        r = ar_fam.variant(np.array(parse_flist(m['r'])).reshape(-1, nc, nc), m.get('dt'))
+        sing = np.zeros_like(np.asarray(r, dtype=float))
+        bad = [('failure/lwr/singular-R0', lambda: ar.lwr_recursion(sing)),
+               ('failure/lwr/one-lag', lambda: ar.lwr_recursion(r[:1])),
+               ('failure/lwr/2d', lambda: ar.lwr_recursion(r[0])),
+               ('failure/lwr/non-square', lambda: ar.lwr_recursion(r[:, :1, :])),
+               ('failure/lwr/None', lambda: ar.lwr_recursion(None))]
+        syms = ar_fail.after_failures(bad, [r], lambda a_: ar.lwr_recursion(a_[0]))
+    elif op in ('mar', 'fit') and 'prog' not in m:
+        x = xv_of(m)
+        N = x.shape[-1]
+        o = m['order'] if m['order'] >= 0 else 2
+        bad = [('failure/mar/order-ge-N', lambda: ar.MAR_est_LWR(x, N + 1)),
+               ('failure/mar/order-negative', lambda: ar.MAR_est_LWR(x, -1)),
+               ('failure/mar/order-None', lambda: ar.MAR_est_LWR(x, None)),
+               ('failure/autocov/nlags-gt-N', lambda: ut.autocov_vector(x, nlags=N + 5)),
+               ('failure/autocov/nlags-0', lambda: ut.autocov_vector(x, nlags=0)),
+               ('failure/crosscov/shape-mismatch', lambda: ut.crosscov_vector(x, x[:, :-1], nlags=2)),
+               ('failure/fit/x1-is-x2', lambda: gr.fit_model(x[0], x[0], order=o)),
+               ('failure/fit/max_order-1', lambda: gr.fit_model(x[0], x[-1], max_order=1)),
+               ('failure/fit/max_order-0', lambda: gr.fit_model(x[0], x[-1], max_order=0)),
+               ('failure/fit/order-ge-N', lambda: gr.fit_model(x[0], x[-1], order=N + 1)),
+               ('failure/fit/no-order-no-max', lambda: gr.fit_model(x[0], x[-1], order=None, max_order=None)),
+               ('failure/fit/criterion-raises', lambda: gr.fit_model(x[0], x[-1], criterion=lambda *a_: 1 / 0))]
+
+        def ordinary(a_):
+            xx = a_[0]
+            return [ut.autocov_vector(xx, nlags=o + 1), ar.MAR_est_LWR(xx, o), gr.fit_model(xx[0], xx[-1], order=o)]
+        syms = ar_fail.after_failures(bad, [x], ordinary)
+    else:
+        return None
+    return fail(syms[0]) if syms else None
+
+
+def gseq_failure_judge(m, clause):
+    import ar_fail, warnings
+    warnings.simplefilter('ignore')
+    _, _, gr = mods()
+    _, inputs = gseq_objects(m)
+    mk = lambda inp: gr.GrangerAnalyzer(inp, ij=None if m['ij'] is None else [tuple(q) for q in m['ij']], n_freqs=16, **fit_kwargs(m))
+    r = ar_fail.analyzer_failure_check(mk, inputs, ['order', 'model_coef', 'causality_xy', 'autocov', 'frequencies'],
+                                       ['order', 'autocov', 'model_coef', 'error_cov', 'causality_xy', 'spectral_matrix'], ar_fail.plain)
+    if r:
+        return Failure('%s/failure/%s' % (clause, r[0]), '%s: %s [op gseq]' % (clause, r[1]), {'meta': m, 'clause': clause})
+    return None
+
+
 def judge(m, impl, clause):
-    return judge_value(m, impl, clause) or sequence_judge(m, clause)
+    f = judge_value(m, impl, clause) or sequence_judge(m, clause)
+    if f is None and m.get('l7'):
+        f = failure_judge(m, clause)
+    if f is None and m['op'] == 'gseq' and m.get('fail'):
+        f = gseq_failure_judge(m, clause)
+    return f
 
 
 def solve_dense(r, P):
@@ -894,10 +1028,61 @@ def cases(rng, tier, seed):
         m = {'op': 'gmar', 'nc': nc, 'a': flist((-A).reshape(-1)), 'cov': flist(cov.reshape(-1)),
              'N': int(nrng.choice([1, 2, 3, 5, 10, 40])), 'seed': int(nrng.randint(0, 2**31 - 1))}
         out.append(mk_case(m, 'generate_mar', cmp_groups(rtol=1e-9)))
+    seen = {}
+    for c in out:                       # a sample of the ordinary cases also goes through the refused-call family (oracle side)
+        if c.meta['op'] in ('lwr', 'mar', 'fit') and seen.setdefault(c.meta['op'], 0) < (4 if not big else 30):
+            seen[c.meta['op']] += 1
+            c.meta['l7'] = True
     out += family_cases(nrng, big)
     out += option_cases(nrng, big)
     out += boundary_cases(nrng, big)
+    out += round2_cases(nrng, big)
     out += rerun_cases(nrng, out, big)
+    return out
+
+
+# ------------------------------------------------------------------ round 2: shared covariance stacks (L8), failure histories (L7)
+def round2_cases(nrng, big):
+    import ar_fail
+    _, _, gr = mods()
+    out = []
+    for rep in range(1 if not big else 6):
+        # --- L8: slices of ONE covariance stack handed to the scalar estimators / to a lower-order recursion, then the stack itself
+        progs = [lambda nc, o: ['LD:0:%d' % o], lambda nc, o: ['YW:%d:%d' % (nc - 1, o)],
+                 lambda nc, o: ['LD:%d:%d' % (c, max(1, o - c % 2)) for c in range(nc)],
+                 lambda nc, o: ['LWR:0:%d' % max(1, o - 1), 'LD:0:1', 'YW:0:%d' % o],
+                 lambda nc, o: ['LWR1:%d:%d' % (nc - 1, o), 'LD:%d:%d' % (nc - 1, o), 'LWR1:%d:%d' % (nc - 1, o)],
+                 lambda nc, o: ['LDcopy:0:%d' % o, 'LDx:0:%d' % o, 'YW:0:1', 'LD:0:%d' % o, 'LD:0:%d' % o],
+                 lambda nc, o: ['LWR:0:%d' % o, 'LWR:0:%d' % o]]
+        for t, pg in enumerate(progs):
+            for nc in ((1, 2, 3) if t % 2 == 0 else (2, 4)):
+                order = int(nrng.randint(1, 5))
+                x = None
+                for _ in range(20):
+                    x = coloured(nrng, nc, int(nrng.choice([64, 100, 256]))) * float(nrng.choice([1.0, 1e-3, 30.0, 1e4]))
+                    if np.linalg.cond(block_toeplitz(direct_autocov(x, order + 1), order)) < COND_MAX:
+                        break
+                m = {'op': 'mar', 'nc': nc, 'order': order, 'x': flist(x.reshape(-1)), 'prog': pg(nc, order)}
+                out.append(mk_case(m, 'mar/shared-covariance/%s' % '+'.join(sorted(set(s.split(':')[0] for s in m['prog']))), cmp_groups()))
+        # --- L8: the same array object in two roles (x is y), identical channels in crosscov / autocov
+        x = coloured(nrng, 2, 96)
+        out.append(mk_case({'op': 'ccovs', 'nc': 2, 'nl': 4, 'pairs': [[0, 0], [0, 1], [1, 0]], 'x': flist(x.reshape(-1)), 'y': flist(x.reshape(-1)),
+                            'same_object': True}, 'crosscov/same-object', cmp_groups(rtol=1e-9)))
+        # --- L7: ONE analyzer whose read is refused part-way (order estimation fails for a later pair), then re-targeted
+        for t in range(2 if not big else 4):
+            nproc = 3 + t % 2
+            ij = default_ij(nproc) if t % 2 == 0 else [(0, 1), (1, 0), (0, nproc - 1), (1, 2)]
+            bad, good = ar_fail.failing_then_good(gr.fit_model, nrng, nproc, 128, ij)
+            if bad is None:
+                continue
+            steps = [{'nproc': nproc, 'Fs': 1.0, 'kind': 'construct', 'data': flist(bad.reshape(-1))},
+                     {'nproc': nproc, 'Fs': 2.0, 'kind': 'after-failed-fit', 'data': flist(good.reshape(-1))}]
+            if t % 2:
+                steps += [{'nproc': nproc, 'Fs': 1.0, 'kind': 'failing-again', 'data': flist((bad * 3.0).reshape(-1))},
+                          {'nproc': nproc, 'Fs': 1.0, 'kind': 'after-failed-fit', 'data': flist(good[::-1].copy().reshape(-1))}]
+            m = {'op': 'gseq', 'nc': 2, 'crit': 'bic', 'order': -1, 'maxo': 3, 'ij': None if t % 2 == 0 else [list(q) for q in ij], 'steps': steps,
+                 'first': ['order', 'model_coef', 'causality_xy'], 'fail': True}
+            out.append(mk_case(m, 'analyzer/retarget/' + '+'.join(st['kind'] for st in steps[1:]), cmp_tokens()))
     return out
 
 
